@@ -24,13 +24,13 @@ import (
 )
 
 type replayInfo struct {
-	fn      *ssa.Function
-	params  []Val
-	names   []string
-	result  Val
-	entry   *State
-	exit    *State
-	ctx     *Ctx
+	fn     *ssa.Function
+	params []Val
+	names  []string
+	result Val
+	entry  *State
+	exit   *State
+	ctx    *Ctx
 }
 
 const maxReplayLen = 4096
@@ -284,7 +284,7 @@ func TestVcgoReplay(t *testing.T) {
 }
 `, fn.Pkg.Pkg.Name(), strings.Join(decl, "\n"), call, strings.Join(prints, "\n"))
 	out, err := runOverlayTest(P, fn.Pkg.Pkg.Path(), src)
-	rec := map[string]interface{}{"test_source": src, "output": truncate(out, 4000)}
+	rec := map[string]interface{}{"test_source": src, "package_path": fn.Pkg.Pkg.Path(), "output": truncate(out, 4000)}
 	if err != nil {
 		rec["error"] = err.Error()
 	}
